@@ -78,6 +78,9 @@ func (delegWithdrawRewardsTx) Validate(ctx *action.Context, signedTx action.Sign
 	if currency.Name != withdraw.Amount.Currency {
 		return false, errors.Wrap(action.ErrInvalidAmount, withdraw.Amount.String())
 	}
+	if !withdraw.Amount.IsValid(ctx.Currencies) {
+		return false, errors.Wrap(action.ErrInvalidAmount, withdraw.Amount.String())
+	}
 
 	err = withdraw.Delegator.Err()
 	if err != nil {
